@@ -243,7 +243,7 @@ func TestDescriptorTombstonesRapid(t *testing.T) {
 					}
 				}
 			}
-			kinds := []string{"heartbeat", "heartbeat", "remove", "remove", "deliver", "deliver", "deliver", "deliverOld", "deliverOld", "exchange", "step", "step", "read",
+			kinds := []string{"heartbeat", "heartbeat", "remove", "remove", "replace", "replace", "deliver", "deliver", "deliver", "deliverOld", "deliverOld", "exchange", "step", "step", "read",
 				"partition", "removePartition", "owner", "removeOwner", "lock"}
 			steps := rapid.IntRange(3, vx.Pick(40, 60)).Draw(rt, "steps")
 			for s := 0; s < steps && failure == ""; s++ {
@@ -278,6 +278,24 @@ func TestDescriptorTombstonesRapid(t *testing.T) {
 					delete(out.Ingesters, id)
 					logf("instance %s removed on replica %d", id, i)
 					casR(i, out)
+				case "replace": // one update registers an instance and removes others
+					idx := rapid.IntRange(0, len(ids)-1).Draw(rt, "instance")
+					home := idx % n
+					out := visibleR(rs[home])
+					mask := rapid.IntRange(1, 1<<len(ids)-1).Draw(rt, "removeMask")
+					removed := 0
+					for j, other := range ids {
+						if _, ok := out.Ingesters[other]; ok && j != idx && mask&(1<<j) != 0 {
+							delete(out.Ingesters, other)
+							removed++
+						}
+					}
+					if removed == 0 {
+						continue
+					}
+					out.Ingesters[ids[idx]] = ring.InstanceDesc{Id: ids[idx], Addr: ids[idx] + ":1", Tokens: []uint32{uint32(idx*10 + 1), uint32(idx*10 + 2)}, RegisteredTimestamp: time.Now().Unix(), State: ring.ACTIVE, Timestamp: time.Now().Unix()}
+					logf("instance %s registered and %d others removed in one update on replica %d", ids[idx], removed, home)
+					casR(home, out)
 				case "partition":
 					p := int32(rapid.IntRange(0, 2).Draw(rt, "partition"))
 					home := int(p) % n
